@@ -200,7 +200,7 @@ def run(chk, scratch):
     for key in sorted(set((j[0], j[1]) for j in jobs)):
         seed, kind = key
         d = os.path.join(scratch, "w%d_%s" % (seed, kind))
-        w = event_world(seed) if kind == "event" else world2.rich_world(seed, n_chroms=3, genes_per_chrom=3, reads_per_t=5, hidden_cov=4)
+        w = event_world(seed) if kind == "event" else world2.rich_world(seed, n_chroms=3, genes_per_chrom=3, reads_per_t=5, hidden_cov=4, zoo=world2.ZOO_ALL)
         pipeline.write_world(w, d)
         # short-read BAM for annotation-free runs: spliced short reads over every annotated junction
         sw = World(seed)
